@@ -2034,8 +2034,9 @@ impl<'a, 'b, W: Write> SerializeTupleStruct for TupleSer<'a, 'b, W> {
                         if self.ser.in_flow == 0 {
                             // Stage the comment so scalar/alias serializers append it inline via write_end_of_scalar.
                             if !comment.is_empty() {
-                                // A comment ends at the first line break, CR included: keep it on one line.
-                                let sanitized = comment.replace(['\n', '\r'], " ");
+                                // A comment ends at the first line break, CR included, and a NUL ends the
+                                // whole stream for the reader: keep the comment on one line, NUL-free.
+                                let sanitized = comment.replace(['\n', '\r', '\0'], " ");
                                 self.ser.pending_inline_comment = Some(sanitized);
                             }
                             // Serialize the inner value as-is. Complex values will ignore the comment (it will be cleared).
